@@ -17,4 +17,4 @@ Definition prefix_ok (rounds : list round) : bool :=
    then list_eqbz (handler_got c) (client_sent_ok c) else true).
 
 Definition oracle_case (k : case) : bool :=
-  match k with Sched _ _ rounds p _ => negb p && forallb prefix_ok (prefixes rounds) | GoChecked _ _ ok => ok end.
+  match k with Sched _ _ rounds p _ => negb p && forallb prefix_ok (prefixes rounds) | GoChecked _ _ ok => ok | Http c => HttpSched.oracle_case c end.
